@@ -33,6 +33,7 @@ func c18Prog(r *Rng, idx int) *Prog {
 					o.Aliases = append(o.Aliases, fmt.Sprintf("a%dx%dz", o.ID, j))
 				}
 			}
+			o.AliasSplit = r.Bool()
 			switch {
 			case k == KBool:
 				o.DefB = r.Bool()
@@ -85,10 +86,22 @@ func c18Prog(r *Rng, idx int) *Prog {
 			c.Unknown = 2
 		}
 		c.Opts = mkOpts(r.Range(0, 3), nil)
-		if r.Chance(1, 3) {
-			c.SynArgs = [][2]string{{"<file" + strconv.Itoa(cid) + ">", "ARGDESC-" + strconv.Itoa(cid)}}
-			if r.Bool() {
-				c.SynArgs = append(c.SynArgs, [2]string{"[<more" + strconv.Itoa(cid) + ">]", ""})
+		if r.Chance(1, 2) {
+			// every mixture of described and undescribed arguments, in both orders
+			n := strconv.Itoa(cid)
+			switch r.Intn(6) {
+			case 0:
+				c.SynArgs = [][2]string{{"<file" + n + ">", "ARGDESC-" + n}}
+			case 1:
+				c.SynArgs = [][2]string{{"<file" + n + ">", "ARGDESC-" + n}, {"[<more" + n + ">]", ""}}
+			case 2:
+				c.SynArgs = [][2]string{{"<src" + n + ">", ""}, {"<dst" + n + ">", "ARGDESC-dst-" + n}}
+			case 3:
+				c.SynArgs = [][2]string{{"<a" + n + ">", ""}, {"<b" + n + ">", ""}, {"<c" + n + ">", "ARGDESC-c-" + n + "\nsecond line"}}
+			case 4:
+				c.SynArgs = [][2]string{{"<only" + n + ">", ""}}
+			case 5:
+				c.SynArgs = [][2]string{{"<x" + n + ">", "ARGDESC-x-" + n}, {"<y" + n + ">", "ARGDESC-y-" + n}}
 			}
 		}
 		if depth < 2 {
@@ -313,7 +326,7 @@ func checkHelp(t *Tree, n *Node, text string) []string {
 		if a[1] != "" && len(n.Cmd.SynArgs) >= 1 {
 			cnt := 0
 			for _, e := range entries {
-				if e.section == "ARGUMENTS" && strings.Contains(e.text, a[1]) {
+				if e.section == "ARGUMENTS" && len(e.aliases) > 0 && e.aliases[0] == a[0] && strings.Contains(e.text, strings.Split(a[1], "\n")[0]) {
 					cnt++
 				}
 			}
